@@ -720,6 +720,8 @@ primaryexpr(struct scope *s)
 		src += decodechar(src, &chr, &hexoct, "character constant", &tok.loc);
 		if (hexoct && chr >> (t ? t->size * 8 - 1 : 7) >> 1)
 			error(&tok.loc, "character constant contains escape sequence out of range");
+		if (!hexoct && t && t->size < 4 && chr >= (t->size == 1 ? 0x80 : 0x10000))
+			error(&tok.loc, "character constant is not representable in a single code unit");
 		val = chr;
 		if (!t) {
 			/* integer character constant: value of type char converted to int */
